@@ -7,7 +7,10 @@ use crate::sim::{run_sim, vnow, Handle, RunOutput, SchedKind};
 use crate::simnet::{NetKnobs, SimNet};
 use futures::StreamExt;
 use litep2p::{
+    codec::ProtocolCodec,
     protocol::request_response::{ConfigBuilder as RrBuilder, DialOptions, RequestResponseEvent, RequestResponseHandle},
+    protocol::{TransportEvent, TransportService, UserProtocol},
+    substream::Substream,
     types::RequestId,
     Litep2p, PeerId, ProtocolName,
 };
@@ -77,6 +80,9 @@ struct World {
     /// (responder node, uid) -> times seen
     seen: BTreeMap<(usize, u64), u32>,
     dead: BTreeMap<usize, bool>,
+    /// index of the rogue speaker, if the run has one: its responses are whatever it sends
+    rogue_idx: Option<usize>,
+    max_size: usize,
 }
 
 fn gen_ops(rng: &mut Rng, n: usize, max_size: u64, tier: Tier) -> (Vec<Value>, u64) {
@@ -147,6 +153,78 @@ fn gen_ops(rng: &mut Rng, n: usize, max_size: u64, tier: Tier) -> (Vec<Value>, u
     (ops, last)
 }
 
+/// A live peer (ghost n+1) that registers the request-response protocol name as a raw user
+/// protocol and, after a request arrives, misbehaves on the wire.
+struct RogueRr {
+    behaviour: String,
+    max_size: usize,
+    handle: Handle,
+}
+
+#[async_trait::async_trait]
+impl UserProtocol for RogueRr {
+    fn protocol(&self) -> ProtocolName {
+        ProtocolName::from("/vsim/rr/1")
+    }
+    fn codec(&self) -> ProtocolCodec {
+        ProtocolCodec::Unspecified
+    }
+    async fn run(self: Box<Self>, mut service: TransportService) -> litep2p::Result<()> {
+        use tokio::io::{AsyncReadExt, AsyncWriteExt};
+        let mut held: Vec<Substream> = Vec::new();
+        let varint = |mut n: u64| {
+            let mut v = Vec::new();
+            loop {
+                let b = (n & 0x7f) as u8;
+                n >>= 7;
+                if n == 0 {
+                    v.push(b);
+                    break;
+                }
+                v.push(b | 0x80);
+            }
+            v
+        };
+        while let Some(ev) = futures::StreamExt::next(&mut service).await {
+            if let TransportEvent::SubstreamOpened { mut substream, .. } = ev {
+                // read a little of the request, then act
+                let mut buf = [0u8; 16];
+                let _ = tokio::time::timeout(Duration::from_secs(2), substream.read(&mut buf)).await;
+                self.handle.probe(&format!("rogue-rr:{}", self.behaviour));
+                let bytes: Option<Vec<u8>> = match self.behaviour.as_str() {
+                    "silent" => None,
+                    "close" => {
+                        drop(substream);
+                        continue;
+                    }
+                    // announces more than the maximum and delivers it
+                    "oversize" => Some([varint(self.max_size as u64 + 1), vec![7u8; self.max_size + 1]].concat()),
+                    // announces 100 bytes, delivers 10, then closes
+                    "truncated" => Some([varint(100), vec![1u8; 10]].concat()),
+                    // two complete responses
+                    "two_frames" => Some([varint(8), vec![2u8; 8], varint(8), vec![3u8; 8]].concat()),
+                    // a length prefix that never ends
+                    "bad_varint" => Some([vec![0x80u8; 11], vec![1, 2, 3]].concat()),
+                    _ => Some(varint(0)),
+                };
+                if let Some(b) = bytes {
+                    let _ = substream.write_all(&b).await;
+                    let _ = substream.flush().await;
+                    if self.behaviour == "truncated" {
+                        let _ = substream.shutdown().await;
+                        continue;
+                    }
+                }
+                held.push(substream);
+                if held.len() > 64 {
+                    held.remove(0);
+                }
+            }
+        }
+        Ok(())
+    }
+}
+
 impl Prop for C13 {
     fn id(&self) -> &'static str {
         "C13"
@@ -162,7 +240,7 @@ impl Prop for C13 {
     fn describe(&self) -> Describe {
         Describe {
             level: "exploration",
-            rule: "each case = one seeded run of 2-4 complete litep2p nodes (request-response protocol) on SimNet: materialised request/cancel/connect operations, fault plan (resets, half-closes, byte-offset cuts, partitions, refused / black-holed / slow connects, node kill with reset or silent vanish, crash + restart with the same identity, process stalls), scheduler kind and knobs; a run is non-trivial if the scheduler had >=1 choice point (>=2 runnable tasks); distinct = distinct trace hash (scheduler decisions + every recorded event with its virtual timestamp)".into(),
+            rule: "each case = one seeded run of 2-4 complete litep2p nodes (request-response protocol) on SimNet: in a third of the runs ghost n+1 is a live peer that registers the protocol name as a raw user protocol and, after a request arrived, stays silent / closes / sends an oversize, truncated, doubled, zero-length or never-terminated-varint response (then a quarter of the requests go to it); materialised request/cancel/connect operations, fault plan (resets, half-closes, byte-offset cuts, partitions, refused / black-holed / slow connects, node kill with reset or silent vanish, crash + restart with the same identity, process stalls), scheduler kind and knobs; a run is non-trivial if the scheduler had >=1 choice point (>=2 runnable tasks); distinct = distinct trace hash (scheduler decisions + every recorded event with its virtual timestamp)".into(),
             real: vec!["Litep2p", "TransportManager", "TcpTransport/TcpConnection", "multistream-select", "Noise", "yamux", "RequestResponseProtocol + handle", "TransportService"],
             stub: vec!["socket layer (SimNet)", "clock (paused tokio clock mirrored into clock_gettime)", "task scheduler (seeded)", "HashMap seeds (getrandom seam)"],
             assumptions: vec![
@@ -209,6 +287,21 @@ impl Prop for C13 {
             }
         }
         ops.sort_by_key(|o| o["at_ms"].as_u64().unwrap_or(0));
+        // ghost n+1 is, in a third of the runs, a live peer that speaks the protocol badly; then a
+        // quarter of the requests go to it
+        let rogue = {
+            let mut r = Rng::fork(seed, "c13-rogue");
+            if r.chance(1, 3) {
+                for o in ops.iter_mut() {
+                    if o["op"] == "request" && r.chance(1, 4) {
+                        o["to"] = json!(n as u64 + 1);
+                    }
+                }
+                json!(*r.pick(&["silent", "close", "oversize", "truncated", "two_frames", "bad_varint", "zero_len"]))
+            } else {
+                Value::Null
+            }
+        };
         let mut knobs = gen_node_knobs(&mut rng);
         // connection limits on some runs
         if rng.chance(1, 5) {
@@ -229,6 +322,7 @@ impl Prop for C13 {
                 "max_size": max_size,
                 "max_inbound": if rng.chance(1, 3) { json!(rng.range(1, 3)) } else { Value::Null },
             },
+            "rogue": rogue,
             "ops": ops,
             "faults": faults,
         })
@@ -254,6 +348,13 @@ impl Prop for C13 {
             net.install();
             nodesim::install_static_faults(&net, &faults);
             let world = Arc::new(Mutex::new(World::default()));
+            {
+                let mut w = world.lock().unwrap();
+                w.max_size = case["rr"]["max_size"].as_u64().unwrap_or(1024) as usize;
+                if case["rogue"].is_string() {
+                    w.rogue_idx = Some(case["nodes"].as_u64().unwrap_or(2) as usize + 1);
+                }
+            }
             let hist: ConnHistory = Arc::new(Mutex::new(Vec::new()));
             let max_size = case["rr"]["max_size"].as_u64().unwrap_or(1024) as usize;
             let max_inbound = case["rr"]["max_inbound"].as_u64().map(|x| x as usize);
@@ -281,6 +382,20 @@ impl Prop for C13 {
                 }
                 node_tx.push(Some(spawn_node_loop(&handle, hist.clone(), i, l)));
                 rr_tx.push(Some(spawn_rr_driver(&handle, world.clone(), i, rh, max_inbound)));
+            }
+            if let Some(behaviour) = case["rogue"].as_str() {
+                let g = n + 1;
+                node::CURRENT_NODE.with(|c| c.set(g));
+                let cfg = base_config(&handle, seed, g, &knobs).with_user_protocol(Box::new(RogueRr { behaviour: behaviour.to_string(), max_size, handle: handle.clone() })).build();
+                match Litep2p::new(cfg) {
+                    Ok(mut l) => {
+                        handle.spawn(g, "rogue-event-loop", async move { while l.next_event().await.is_some() {} });
+                    }
+                    Err(e) => {
+                        handle.violation("harness:litep2p-new", format!("rogue: {e:?}"));
+                        return Box::new(|| {});
+                    }
+                }
             }
             node::CURRENT_NODE.with(|c| c.set(0));
             // n+2: black-holed host (SYNs vanish)
@@ -541,6 +656,7 @@ fn spawn_rr_driver(handle: &Handle, world: Arc<Mutex<World>>, i: usize, mut rh: 
                     Some(RequestResponseEvent::ResponseReceived { peer, request_id, response, .. }) => {
                         h.event(format!("n{i} ResponseReceived {:?} from {} len={}", request_id, short(&peer), response.len()));
                         let mut w = world.lock().unwrap();
+                        let (rogue_idx, max_size_cfg) = (w.rogue_idx, w.max_size);
                         let Some(r) = w.reqs.iter_mut().find(|r| r.node == i && r.id == request_id) else {
                             drop(w);
                             h.violation("unknown-request-id", format!("node {i}: ResponseReceived for {:?} which was never issued", request_id));
@@ -554,6 +670,15 @@ fn spawn_rr_driver(handle: &Handle, world: Arc<Mutex<World>>, i: usize, mut rh: 
                         }
                         r.terminal = Some("response".into());
                         let expect = make_response(r.uid, r.resp_size);
+                        if Some(r.to_idx) == rogue_idx {
+                            // the rogue answers what it likes; the configured bound still holds
+                            if response.len() > max_size_cfg {
+                                let d = format!("node {i}: response of {} bytes delivered for {:?}, the configured maximum is {}", response.len(), request_id, max_size_cfg);
+                                drop(w);
+                                h.violation("oversize-response-delivered", d);
+                            }
+                            continue;
+                        }
                         if expect != response {
                             let d = format!("node {i}: response for {:?} (uid {:x}) differs from what the responder supplied: {} bytes vs {} expected", request_id, r.uid, response.len(), expect.len());
                             drop(w);
